@@ -608,7 +608,7 @@ func (s *sup) keyedExtras() {
 			continue
 		}
 		name := core.FuncName(d.Obj)
-		c.Walk("R6b", &core.Config{Unroll: 1}, core.Entry{Decl: d}, func(p *core.Path) {
+		c.Walk("R6b", &core.Config{Unroll: 1, Follow: helperFollow(s.pkg, "start", "execute")}, core.Entry{Decl: d}, func(p *core.Path) {
 			g := prepare(c, p)
 			// segments between lookups: each `existed == true` decision must be followed, before the
 			// next lookup or the return, by deferRemove = nil or a test showing it nil
@@ -661,7 +661,7 @@ func (s *sup) keyedExtras() {
 	// KeyedRefCount
 	if d := c.declByName("R12", "keyed", "KeyedRefCount", "AddKeyRef"); d != nil {
 		name := core.FuncName(d.Obj)
-		c.Walk("R12", &core.Config{}, core.Entry{Decl: d}, func(p *core.Path) {
+		c.Walk("R12", &core.Config{Follow: helperFollow(s.pkg, "start", "execute")}, core.Entry{Decl: d}, func(p *core.Path) {
 			setSec, regSec := -2, -3
 			g := prepare(c, p)
 			var pos token.Pos
@@ -708,7 +708,7 @@ func (s *sup) keyedExtras() {
 	}
 	if d := c.declByName("R16", "keyed", "KeyedRefCount", "RemoveKey"); d != nil {
 		name := core.FuncName(d.Obj)
-		c.Walk("R16", &core.Config{}, core.Entry{Decl: d}, func(p *core.Path) {
+		c.Walk("R16", &core.Config{Follow: helperFollow(s.pkg, "start", "execute")}, core.Entry{Decl: d}, func(p *core.Path) {
 			marked := false
 			iter := false
 			removed := -1
@@ -918,5 +918,21 @@ func (s *sup) retryOption() {
 				"the back-off is constructed when the option value is made: every container the option is applied to shares one back-off state, so one routine's failures and successes change another's retry interval", nil)
 			return true
 		})
+	}
+}
+
+// helperFollow: walk the unexported helpers of the package in place (a method split into a lock-taking
+// wrapper and an xLocked helper is judged as one), except the named ones.
+func helperFollow(pkg string, except ...string) func(*types.Func) bool {
+	return func(f *types.Func) bool {
+		if f.Pkg() == nil || RelPkg(f.Pkg().Path()) != pkg || f.Exported() {
+			return false
+		}
+		for _, e := range except {
+			if f.Name() == e {
+				return false
+			}
+		}
+		return true
 	}
 }
